@@ -106,7 +106,7 @@ func packagesForProperty(root, id string) []string {
 		if !info.IsDir() && strings.HasPrefix(info.Name(), "zz_verif_contracts") && strings.HasSuffix(info.Name(), ".go") {
 			data, _ := os.ReadFile(p)
 			for _, line := range strings.Split(string(data), "\n") {
-				if strings.Contains(line, "//@") && strings.Contains(line, id) {
+				if (strings.Contains(line, "//@") || strings.Contains(line, "// @")) && strings.Contains(line, id) {
 					rel, _ := filepath.Rel(root, filepath.Dir(p))
 					pat := "./" + filepath.ToSlash(rel)
 					if !seen[pat] {
